@@ -15,6 +15,7 @@ inductive Op
   | createFamily (name : Nat) (threshold : Int)
   | flushStart (name : Nat) (kvs : List (Nat × Nat)) (seqs : List (Int × Int))
   | flushCommit (name : Nat) (size : Nat)
+  | flushFail (name : Nat)          -- Commit whose table close fails with an I/O error
   | compact (name : Nat) (size : Nat)
   | edit (name : Nat) (logs : List Log)
   | close
@@ -43,6 +44,10 @@ def runOp (cfg : Cfg) (s : St) (o : Op) : Option (St × List FsOp) :=
     | none => none
   | some m, .flushCommit name size =>
     match flushCommit m name size with
+    | some (m', ops) => some (⟨some m', applyFsList s.disk ops⟩, ops)
+    | none => none
+  | some m, .flushFail name =>
+    match flushFail m name with
     | some (m', ops) => some (⟨some m', applyFsList s.disk ops⟩, ops)
     | none => none
   | some m, .compact name size =>
